@@ -17,9 +17,9 @@ package ipp
 //@ spec decOK(dec decoder.Decoder) bool = dec != nil && typeis(dec, *decoder.Decode) && dd(dec) != nil && decoder.wf(dd(dec))
 // The loops test the byte read at the END of a round (for ...; tag ok; tag = dec.Byte()), so the measure
 // also counts whether that test will succeed: a failed last read (0, never a valid tag) ends the loop.
-// progress: lexicographic measure (no error so far, bytes left): a round either consumes input or sets the
-// sticky error; once the error is set a further round still has to consume input.
-//@ spec progress(dec decoder.Decoder) int = ite(derr(dec) == nil, 1<<41, 0) + rem(dec)
+// The measure is the lexicographic triple (no error so far, bytes left, the loop test will succeed): a
+// round either consumes input or sets the sticky error; once the error is set a further round still has
+// to consume input.
 //
 //@ func (*valInt).decode
 //@   check safety
@@ -50,7 +50,7 @@ package ipp
 //@   modifies v.name, v.val, v.val[:], dd(dec).offset, dd(dec).lasterror
 //@   loop 1: invariant decOK(dec) && dd(dec) == old(dd(dec)) && len(dd(dec).data) == old(len(dd(dec).data)) && (old(derr(dec)) != nil ==> derr(dec) != nil) && v.tag != 0
 //@   loop 1: invariant [tag-read] derr(dec) == nil ==> rem(dec) + 1 <= old(rem(dec))
-//@   loop 1: decreases 2*progress(dec) + ite(vtag == v.tag, 1, 0)
+//@   loop 1: decreases ite(derr(dec) == nil, 1, 0); rem(dec); ite(vtag == v.tag, 1, 0)
 //
 //@ func (*valBool).decode
 //@   check safety
@@ -62,7 +62,7 @@ package ipp
 //@   modifies v.name, v.val, v.val[:], dd(dec).offset, dd(dec).lasterror
 //@   loop 1: invariant decOK(dec) && dd(dec) == old(dd(dec)) && len(dd(dec).data) == old(len(dd(dec).data)) && (old(derr(dec)) != nil ==> derr(dec) != nil) && v.tag != 0
 //@   loop 1: invariant [tag-read] derr(dec) == nil ==> rem(dec) + 1 <= old(rem(dec))
-//@   loop 1: decreases 2*progress(dec) + ite(vtag == v.tag, 1, 0)
+//@   loop 1: decreases ite(derr(dec) == nil, 1, 0); rem(dec); ite(vtag == v.tag, 1, 0)
 //
 // Attribute group: one value per round; every round consumes at least its tag byte or ends with the
 // decoder's error. Unknown value tags are not under contract here (v stays nil and the call panics; the
@@ -76,10 +76,10 @@ package ipp
 //@   modifies *
 //@   loop 1: invariant decOK(dec) && dd(dec) == old(dd(dec)) && len(dd(dec).data) == old(len(dd(dec).data)) && (old(derr(dec)) != nil ==> derr(dec) != nil)
 //@   loop 1: invariant [tag-read] derr(dec) == nil ==> rem(dec) + 1 <= old(rem(dec))
-//@   loop 1: decreases 2*progress(dec) + ite(vtag > unsupAttribTag, 1, 0)
+//@   loop 1: decreases ite(derr(dec) == nil, 1, 0); rem(dec); ite(vtag > unsupAttribTag, 1, 0)
 //
 // Request: a truncated or malformed request ends with an error; the group loop cannot spin.
 //@ func (*ippMsg).decode
 //@   modifies *
 //@   loop 1: invariant dec != nil && decoder.wf(dec) && len(dec.data) == len(raw) && len(raw) <= 1<<40
-//@   loop 1: decreases 2*(ite(dec.lasterror == nil, 1<<41, 0) + len(dec.data) - dec.offset) + ite(dtag != endAttribTag, 1, 0)
+//@   loop 1: decreases ite(dec.lasterror == nil, 1, 0); len(dec.data) - dec.offset; ite(dtag != endAttribTag, 1, 0)
